@@ -121,6 +121,15 @@ def check(ctx):
     def triple(st, inner_variant):
         return (st[0] == 'agg' and st[2] == 'Some' and st[3] and st[3][0][0] == 'agg' and st[3][0][2] == 'Ok' and st[3][0][3][0][0] == 'agg'
                 and st[3][0][3][0][2] == inner_variant)
+    def double(st, inner_variant):
+        """Ok(Some(v)) / Ok(None): the direct-return spelling of a hand-written matcher loop"""
+        return st[0] == 'agg' and st[2] == 'Ok' and st[1].endswith('Result') and st[3] and st[3][0][0] == 'agg' and st[3][0][1].endswith('Option') and st[3][0][2] == inner_variant
+    def accept_val(st):
+        if triple(st, 'Some'):
+            return st[3][0][3][0][3][0]
+        if double(st, 'Some'):
+            return st[3][0][3][0]
+        return None
     scope = None
     for b in F.bodies:
         if b.dk == 'Closure' or scope is not None:
@@ -161,7 +170,13 @@ def check(ctx):
                             tt = tb.rvalue_term(st['rv'], bi, si)
                             if triple(tt, 'Some') or triple(tt, 'None'):
                                 defs.append((bi, si, tt))
-                if any(triple(d[2], 'Some') for d in defs) and any(prim_call(x) is not None for sb_, dt2 in switch_on(tb, b, lambda d: True) for x in walk(dt2)):
+                # direct returns from inside the loop: Ok(Some(v)) accepts, Ok(None) is a terminating negative
+                none_t = [bb for v, bb in t['targets'] if v == 0]
+                after = b.reachable(none_t[0]) if none_t else set()
+                for bi, si, tt in ret_defs(tb):
+                    if bi in inside and bi not in after and (double(tt, 'Some') or double(tt, 'None')):
+                        defs.append((bi, si, tt))
+                if any(accept_val(d[2]) is not None for d in defs) and any(prim_call(x) is not None for sb_, dt2 in switch_on(tb, b, lambda d: True) for x in walk(dt2)):
                     scope = {'host': b, 'otb': tb, 'body': b, 'tb': tb, 'OBJ': ('elem', coll), 'caps': None, 'src': coll, 'adaptor': 'loop', 'defs': defs,
                              'header': h, 'some': some[0]}
                     break
@@ -237,11 +252,11 @@ def check(ctx):
         accept_aggs = []
         for bi, si, t in scope['defs']:
             st = strip_sites(t)
-            if not triple(st, 'Some'):
+            val = accept_val(st)
+            if val is None:
                 continue
             accept_aggs.append(st)
             n_acc += 1
-            val = st[3][0][3][0][3][0]
             site = ctx.site(cl, bi, si)
             if val == OBJ:
                 ok, info = guard_dominates(cl, ctb, [bi], g_plain, True)
@@ -264,7 +279,8 @@ def check(ctx):
         if n_acc == 0:
             ctx.lost('C09.3', 'accept sites of the matcher')
         # an object that is not a signature from this key must not end the scan: the per-object negative is None (continue), never Some(Ok(None))
-        term_neg = [(bi, si) for bi, si, t in scope['defs'] if triple(strip_sites(t), 'None')]
+        term_neg = [(bi, si) for bi, si, t in scope['defs'] if triple(strip_sites(t), 'None') or double(strip_sites(t), 'None')]
+        direct_accepts = {(bi, si) for bi, si, t in scope['defs'] if double(strip_sites(t), 'Some')}
         if term_neg:
             ctx.fail('C09.3', ctx.site(cl, term_neg[0][0], term_neg[0][1]), 'a signature object that does not verify under the key ends the scan with "not signed" (Some(Ok(None))): '
                      'a valid signature from the same key that sorts later is never reached', key='C09.3|terminating_negative')
@@ -290,7 +306,7 @@ def check(ctx):
                 if inner[0] == 'agg' and inner[2] == 'None':
                     continue
                 if inner[0] == 'agg' and inner[2] == 'Some' and (contains(inner, lambda x: x[0] == 'call' and call_name(x) == 'find_map')
-                                                                  or contains(inner, lambda x: x in accept_aggs)):
+                                                                  or contains(inner, lambda x: x in accept_aggs) or (bi, si) in direct_accepts):
                     ctx.ok('C09.2', ctx.site(outer_fn, bi, si), 'positive result is exactly the matcher\'s Some(Ok(Some(x)))')
                     continue
             ctx.fail('C09.2', ctx.site(outer_fn, bi, si), 'a positive verification result is manufactured without the matcher: %s' % fmt(st), key='C09.2|manufactured')
